@@ -58,6 +58,19 @@ void FeatureChecker::visitVariable(variable_t& var)
         supported_methods.symbolic = false;
 }
 
+void FeatureChecker::visitFunction(function_t& fun)
+{
+    // updates may be hidden in the functions they call
+    if (fun.body)
+        fun.body->accept(this);
+}
+
+int32_t FeatureChecker::visitExprStatement(ExprStatement* stat)
+{
+    visitAssignment(stat->expr);
+    return 0;
+}
+
 void FeatureChecker::visitEdge(edge_t& edge)
 {
     visitAssignment(edge.assign);
